@@ -510,10 +510,22 @@ fn main() {
         }
         t.next_episode();
     }
+    // whole-page skips: page index + small pages x every policy x batch sizes 1..5
+    let mut gap_scans = 0usize;
+    for _ in 0..args.scale(6, 60) {
+        let f = build_file(&gap_layout(&mut rng, args.scale(56, 120)));
+        for c in gap_cfgs(&mut rng, &f) {
+            if is_mask_gap(&f, &c) {
+                gap_scans += 1;
+            }
+            scan(&mut t, &f, &c);
+        }
+        t.next_episode();
+    }
     let n2 = t.finish();
 
     let mut t = Shards::create(&args.out, "tiny", shards);
     tiny_exhaustive(&mut t, args.thorough(), args.seed);
     let n3 = t.finish();
-    println!("DRIVER c06 rowsel_events={n1} scan_events={n2} tiny_scan_events={n3}");
+    println!("DRIVER c06 rowsel_events={n1} scan_events={n2} tiny_scan_events={n3} mask_gap_scans={gap_scans}");
 }
